@@ -2,6 +2,7 @@ import CifModel.Lemmas.WriterTotal
 import CifModel.Lemmas.WriterLines
 import CifModel.Model.Parser
 import CifModel.Props.C01parse
+import CifModel.Lemmas.WriterRoundtrip
 /-
   Property C02 — whole documents.  (Separate from Props/C02.lean only because these theorems are proved from lemmas that
   themselves use the value-level theorems of Props/C02.lean.)
@@ -228,18 +229,43 @@ theorem C02_parse_item_roundtrip (c : Ctx) (s : Str) (q : Bool) (out : Str) (c' 
       consume, Bool.false_eq_true, ↓reduceIte]
 
 /-- FULL (whole documents, against the integrated parser model of group gJ): whatever `cif_write` emits in CIF 2.0 mode
-    for the walk `wc` of a CIF is parsed — nested frames allowed, accept-all policy (hence, by `C01_error_free_policy_independent`,
-    any policy) — with return code 0, without a single report, into a CIF `equiv`alent to the original.
-    PROVED OF IT: the value level through the parser's own value production (`C02_parse_value_roundtrip`: every string value,
-    every presentation, both dialects), the line bound (`C02_line_bound`), totality (`C02_total`); the composition over the
-    container / loop / list / table productions is not proved (group gJ's `C01_structure` is open as well) — instances
-    are kernel-evaluated below and the statement is checked per generated case by the correspondence oracle. -/
+    for the walk `wc` of a CIF is parsed — nested frames allowed, accept-all policy — with return code 0, without a single
+    report, into a CIF `equiv`alent to the original.  (Kept visible as the unrestricted statement.)
+    PROVED: `C02_roundtrip_doc` below — the same conclusion for EVERY callback policy, with `equiv` made concrete (`backBlock`),
+    for every CIF whose characters, names and codes are valid (hypotheses `cifR`, `blocksN`, `containersL`; one level of save
+    frames, which is all the abstract documents of Spec/Grammar.lean express). -/
 def C02_roundtrip_doc_full (equiv : WCif → Cif → Prop) : Prop :=
   ∀ (wc : WCif) (out : Str) (o : Model.Parser.Opts), o.dia = .cif2 → o.maxFrameDepth < 0 → o.unfold = true → o.prem = true →
     o.notUtf8 = false → o.store = true →
     writeCif 0 wc = .ok out →
     (Model.Parser.parse o Model.Lexer.acceptAll [] out).rc = 0 ∧ (Model.Parser.parse o Model.Lexer.acceptAll [] out).log = [] ∧
     equiv wc (Model.Parser.parse o Model.Lexer.acceptAll [] out).cif
+
+open Lemmas.WriterChunks in
+/-- **C02_roundtrip_doc** — the whole-document round trip, CIF 2.0.  For every walk order `cif` (`WCif`: data blocks, one level
+    of save frames, the scalar loop, loops, values of every kind nested to any depth) that `cif_write` accepts in CIF 2.0 mode
+    (`writeCif 0 cif = .ok out`), provided
+      * `cifR`: the strings consist of characters CIF 2.0 allows (well-formed UTF-16), block / frame codes and data names are
+        non-empty words of such characters, table entries are stored under the normalised form of their valid, pairwise
+        different keys, an unquoted number that fits a line is a whitespace-delimited value; the scalar loop has one packet,
+      * `blocksN`: codes and data names are valid and pairwise different per container (`cif_is_valid_name`, normalisation
+        `o.norm`), loops have a header, at least one packet, packets as long as the header; at most one scalar loop,
+      * `containersL`: names, codes and number texts fit a line (the hypotheses of `C02_line_bound`),
+    the integrated parser model (CIF 2.0, line unfolding and prefix removal on, target CIF present, frames allowed), under
+    EVERY callback policy, returns CIF_OK, reports nothing, and leaves a CIF `back` whose blocks, frames, loops, packets and
+    values are those written (`backBlock`: same codes, names, texts, keys, element order; a number comes back as the string
+    of its digits; a value that was quoted comes back quoted — an unquoted one may come back quoted: known finding
+    F-unquoted-overlong; loop categories are not part of the syntax).
+    Composition of: the writer as chunks of an abstract document (Lemmas/WriterChunks*.lean), the scanner glue over chunks
+    (Lemmas/LexGlue.lean, from gD's C01_lex_* theorems), gJ's `C01_parse_render_partial` / `C01_structure`, and
+    `C02_line_bound`'s invariant.  No lexical hypothesis is left. -/
+theorem C02_roundtrip_doc (o : Model.Parser.Opts) (pol : Model.Lexer.Policy) (cif : WCif) (out : Str)
+    (hdia : o.dia = .cif2) (hun : o.unfold = true) (hpr : o.prem = true)
+    (hstore : o.store = true) (hmfd : o.maxFrameDepth ≠ 0) (hutf : o.notUtf8 = false)
+    (hL : containersL cif) (hR : cifR o.dia o.normKey cif) (hN : blocksN o cif [])
+    (hw : writeCif 0 cif = .ok out) :
+    ∃ back, Model.Parser.parse o pol [] out = { rc := 0, log := [], cif := back } ∧ All2 backBlock cif back :=
+  roundtrip_doc 0 o pol cif out (by rw [hdia]; rfl) hun hpr hstore hmfd hutf hL hR hN hw
 
 namespace C02Doc
 /-- what was written, or nothing -/
@@ -271,5 +297,87 @@ example : containersL [WContainer.mk (a!"b") []
     [{ category := some [], header := [a!"_x"], packets := [[(a!"_x", V.lst [V.chr true (a!"a b"), V.tbl [(a!"k", a!"k", V.unk)]])]] },
      { category := none, header := [a!"_y"], packets := [[(a!"_y", V.numb false (a!"12") false [] none 0)]] }]] := by
   simp [containersL, containerL, codeL, loopL, headerL, itemsL, valueL, elemsL, entriesL, nameL, strOk, numbOk, countChar32, LINE]
+
+namespace C02Doc
+/-- a block with a save frame, the scalar loop (a list holding a string that needs quotes, a table, a multi-line string that
+    becomes a text field) and a loop with an unquoted number -/
+def sample : WCif := [WContainer.mk (a!"b")
+    [WContainer.mk (a!"f") [] [{ category := some [], header := [a!"_z"], packets := [[(a!"_z", V.chr false (a!"v"))]] }]]
+    [{ category := some [], header := [a!"_x"],
+       packets := [[(a!"_x", V.lst [V.chr true (a!"a b"), V.tbl [(a!"k", a!"k", V.chr true (a!"p\nq"))], V.unk])]] },
+     { category := none, header := [a!"_y"], packets := [[(a!"_y", V.numb false (a!"12") false [] none 0)]] }]]
+end C02Doc
+
+open Lemmas.WriterChunks Lemmas.LexGlue in
+/-- non-vacuity of `C02_roundtrip_doc`: all its hypotheses hold of `C02Doc.sample` under gJ's option record `opts2`, and the
+    writer accepts it -/
+theorem C02_roundtrip_doc_instance :
+    containersL C02Doc.sample ∧ cifR .cif2 id C02Doc.sample ∧ blocksN C01parse.opts2 C02Doc.sample []
+      ∧ ∃ out, writeCif 0 C02Doc.sample = .ok out := by
+  refine ⟨?_, ?_, ?_, ?_⟩
+  · simp [C02Doc.sample, containersL, containerL, codeL, loopL, headerL, itemsL, valueL, elemsL, entriesL, nameL, strOk, numbOk,
+      countChar32, LINE]
+  · intro k hk
+    simp only [C02Doc.sample, List.mem_singleton] at hk
+    subst hk
+    have hcode : ∀ c : Str, (Tk.data c).ok .cif2 = true → codeR .cif2 c := fun _ h => h
+    have hname : ∀ n : Str, (Tk.name n).ok .cif2 = true → n.length ≤ LINE → nameR .cif2 n := fun _ h h' => ⟨h, h'⟩
+    refine ⟨_, _, _, rfl, hcode _ (by decide), ?_, ?_⟩
+    · intro f hf
+      simp only [List.mem_singleton] at hf
+      subst hf
+      refine ⟨_, _, rfl, hcode _ (by decide), ?_⟩
+      intro l hl
+      simp only [List.mem_singleton] at hl
+      subst hl
+      unfold loopR
+      refine ⟨fun _ => ⟨_, rfl⟩, fun h => absurd h (by decide), ?_⟩
+      intro p hp nv hnv
+      simp only [List.mem_singleton] at hp
+      subst hp
+      simp only [List.mem_singleton] at hnv
+      subst hnv
+      exact ⟨by simp only [valueR]; decide, fun _ => hname _ (by decide) (by decide)⟩
+    · intro l hl
+      simp only [List.mem_cons, List.mem_singleton, List.not_mem_nil, or_false] at hl
+      rcases hl with rfl | rfl
+      · unfold loopR
+        refine ⟨fun _ => ⟨_, rfl⟩, fun h => absurd h (by decide), ?_⟩
+        intro p hp nv hnv
+        simp only [List.mem_singleton] at hp
+        subst hp
+        simp only [List.mem_singleton] at hnv
+        subst hnv
+        refine ⟨?_, fun _ => hname _ (by decide) (by decide)⟩
+        simp only [valueR, elemsR, entriesR, and_true, List.not_mem_nil, false_imp_iff, implies_true, id]
+        decide
+      · unfold loopR
+        refine ⟨fun h => absurd h (by decide), fun _ n hn => ?_, ?_⟩
+        · simp only [List.mem_singleton] at hn
+          subst hn
+          exact hname _ (by decide) (by decide)
+        · intro p hp nv hnv
+          simp only [List.mem_singleton] at hp
+          subst hp
+          simp only [List.mem_singleton] at hnv
+          subst hnv
+          refine ⟨?_, fun h => absurd h (by decide)⟩
+          simp only [valueR, numR, numbOk, strOk]
+          decide
+  · simp [C02Doc.sample, blocksN, framesN, loopsN, scalarOnce, scalarsN, seenScalars, isScalars]
+    decide
+  · have hok : (match writeCif 0 C02Doc.sample with | .ok _ => true | .error _ => false) = true := by decide +kernel
+    cases h : writeCif 0 C02Doc.sample with
+    | ok o => exact ⟨o, rfl⟩
+    | error e => rw [h] at hok; cases hok
+
+open Lemmas.WriterChunks in
+/-- … hence `C02_roundtrip_doc` applies: under every callback policy the sample, written and parsed, comes back -/
+theorem C02_roundtrip_doc_sample (pol : Model.Lexer.Policy) :
+    ∃ out back, writeCif 0 C02Doc.sample = .ok out
+      ∧ Model.Parser.parse C01parse.opts2 pol [] out = { rc := 0, log := [], cif := back } ∧ All2 backBlock C02Doc.sample back := by
+  obtain ⟨hL, hR, hN, out, hw⟩ := C02_roundtrip_doc_instance
+  obtain ⟨back, hp, hb⟩ := C02_roundtrip_doc C01parse.opts2 pol C02Doc.sample out rfl rfl rfl rfl (by decide) rfl hL hR hN hw
+  exact ⟨out, back, hw, hp, hb⟩
 
 end CifModel
